@@ -595,7 +595,8 @@ class PlanLoop(LoopSim):
         if t:
             return t
         if b.connect_seen:
-            f = self.ask(f"cli.data b={hexs(b.connack(0, 0, {}))}")
+            sp, rc = self.connacks.pop(0) if getattr(self, "connacks", None) else (0, 0)
+            f = self.ask(f"cli.data b={hexs(b.connack(sp, rc, {}))}")
             b.connack_sent = True
             b.session = True
             if f.get("res", "").startswith("err"):
@@ -664,6 +665,68 @@ def lifecycle_plans(tier):
                     if tier != "quick" or (o1 in ("stopdisc", "close") or o2 in ("stopdisc", "close")) and j >= 5:
                         plans.append((pl, True))
     return plans
+
+
+def suite_hostile_connack(report, tier, seed, prop="C11"):
+    """the client (engine + event dispatch, driven like the drivers drive it) against a server whose CONNACK breaks the protocol
+    or refuses the connection: Session Present = 1 answering a clean-start CONNECT, failing reason codes, a second CONNACK -
+    on the first connection and on later ones.  No panic, the attempt is reported as a failure (never as a success), the loop
+    goes on and a stop still stops."""
+    h = Proc([HARNESS_BIN], "harness")
+    sims = []
+    try:
+        scripts = [[(1, 0)], [(1, 0), (0, 0)], [(0, 0x87)], [(1, 0x87)], [(0, 0), (1, 0)], [(1, 0), (1, 0), (0, 0)]]
+        for j, cs in enumerate(scripts):
+            for stop_at in (None, "established", "later"):
+                h.ask("session.reset")
+                sim = PlanLoop(Rng(seed, f"hostile-connack:{j}"), h, ({stop_at: ["stop"]} if stop_at else {}), drop=True)
+                sim.connacks = list(cs)
+                sim.hostile = list(cs)
+                sim.run()
+                sims.append(sim)
+    finally:
+        h.close()
+    reqs = []
+    for s in sims:
+        reqs.append("session.reset")
+        reqs += s.script
+    model = driver_batch(reqs)
+    corr_ok, mon_ok = True, True
+    pos = 0
+    for s in sims:
+        pos += 1
+        mo = model[pos:pos + len(s.script)]
+        pos += len(s.script)
+        report.case("|".join(s.script))
+        report.traces_validated += 1
+        for l, a, b in zip(s.script, s.out, mo):
+            if l.startswith("cli.advance") or (a.startswith("res=panic") and b.startswith("res=panic")):
+                continue
+            if canon_comps(a) != canon_comps(b):
+                corr_ok = False
+                i = s.script.index(l)
+                report.add_finding(Finding(prop, "corr:hostile-connack", {"clause": "model-vs-impl", "verb": l.split(" ")[0]},
+                                           "client against a hostile CONNACK: implementation and model disagree", s.script[:i + 1] + ["# impl: " + a[:300], "# model: " + b[:300]], has_input=False))
+                break
+        bad = None
+        for i, o in enumerate(s.out):
+            if o.startswith("res=panic") or o == "res=died":
+                bad = ("panic", "the client panicked: " + o[:120], s.script[:i + 1])
+                break
+        if not bad:
+            g = check_grammar(s.events)
+            if g:
+                bad = ("event-grammar", "client event stream is not well-formed: " + g, s.script)
+        if not bad and s.hostile and (s.hostile[0][0] == 1 or s.hostile[0][1] != 0):
+            # the first answer was a violation / a refusal: the first outcome reported must be a failure
+            first = [ev for _, ev in s.events if ev.startswith(("Failure", "Success"))][:1]
+            if first and first[0].startswith("Success"):
+                bad = ("refused-handshake-reported-as-success", f"the first CONNACK was {'Session Present = 1 after a clean start' if s.hostile[0][0] else 'a refusal'}, yet the client reported {first[0]}", s.script)
+        if bad:
+            mon_ok = False
+            report.add_finding(Finding(prop, "mon:hostile-connack", {"clause": bad[0]}, bad[1], bad[2]))
+    report.obligation("corr:hostile-connack", "correspondence", corr_ok, f"{len(sims)} planned client loops, every call compared")
+    report.obligation("mon:hostile-connack", "monitor", mon_ok, "no panic, a refused or protocol-breaking handshake is reported as a failure, the event stream stays well-formed")
 
 
 GRAMMAR = re.compile(r"^(S*A(F|U(D|$)|$)S*)*$")
